@@ -40,11 +40,11 @@ BLOCKING = ("JoinHandle::join", "::recv", "::recv_timeout", "thread::park", "thr
             "Barrier::wait", "::read_to_string", "::read_to_end", "::read_exact", "ScopedJoinHandle::join", "thread::scope")
 
 
-def main_thread_functions(ix):
+def main_thread_functions(ix, roots=ROOTS):
     from . import c10
     spawned = {clo for (_b, _bi, _t, clo) in c10.spawn_sites(ix) if clo}
     seen = set()
-    stack = [r for r in ROOTS if r in ix.bodies]
+    stack = [r for r in roots if r in ix.bodies]
     while stack:
         k = stack.pop()
         if k in seen or k in spawned:
